@@ -2,7 +2,6 @@ package c03
 
 import (
 	"fmt"
-	"sort"
 	"strings"
 	"testing"
 
@@ -10,6 +9,7 @@ import (
 
 	"verif/internal/cli"
 	"verif/internal/gen"
+	"verif/internal/gt"
 	"verif/internal/h"
 	"verif/internal/ref"
 )
@@ -19,11 +19,8 @@ import (
 //
 // The map file (-m: current name <TAB> new name, --revert: the other way round) is an auxiliary
 // text file written by hand or by a spreadsheet: LF or CRLF line ends, with or without a final
-// end-of-line (cli.AuxLayout). The renamed trees are written as Newick text; that text, read by
-// the reference reader, must be exactly the input tree with the names of the map replaced: same
-// shape, child order, lengths, supports - and labels that are the new names, nothing more (a
-// carriage return kept at the end of a label is text that describes another tree).
-// With --auto the map file is written by the command: applying it to the input must give the output.
+// end-of-line (cli.AuxLayout). C03 asks that the Newick text written for the edited tree describes
+// exactly that tree: the text must be readable, well-formed, and mean the same to every reader.
 
 type RenameCase struct {
 	Trees  []*ref.Node `json:"trees"`
@@ -31,16 +28,6 @@ type RenameCase struct {
 	Revert bool        `json:"revert"`
 	Auto   bool        `json:"auto"`
 	ToFile bool        `json:"to_file"`
-}
-
-func renamed(m *ref.Node, mp map[string]string) *ref.Node {
-	c := m.Clone()
-	c.Walk(func(x, p *ref.Node) {
-		if n, ok := mp[x.Name]; ok && x.Name != "" {
-			x.Name = n
-		}
-	})
-	return c
 }
 
 func checkRename(c RenameCase) error {
@@ -53,13 +40,11 @@ func checkRename(c RenameCase) error {
 		in.WriteString(ref.Write(m) + "\n")
 	}
 	args := []string{"rename", "-m", "map.txt"}
-	mp := map[string]string{}
 	if c.Auto {
 		args = append(args, "-a", "--internal")
 	} else {
 		var mf strings.Builder
 		for _, e := range c.Map {
-			mp[e[0]] = e[1]
 			if c.Revert {
 				mf.WriteString(e[1] + "\t" + e[0] + "\n")
 			} else {
@@ -95,61 +80,41 @@ func checkRename(c RenameCase) error {
 	if len(lines) != len(c.Trees) {
 		return fmt.Errorf("%d lines written for %d trees%s", len(lines), len(c.Trees), ctx)
 	}
-	if c.Auto {
-		// the map the command wrote: one line per renamed node, current name <TAB> new name
-		for _, l := range strings.Split(strings.TrimSuffix(cli.Read(dir, "map.txt"), "\n"), "\n") {
-			f := strings.Split(l, "\t")
-			if len(f) != 2 {
-				return fmt.Errorf("written map file has a line with %d fields: %q%s", len(f), l, ctx)
-			}
-			mp[f[0]] = f[1]
-		}
-	}
 	for i, l := range lines {
+		// the written text describes one tree, whoever reads it: the reference reader (which takes
+		// every character between two metacharacters as the label) and gotree's own reader (which
+		// drops blanks around labels, as Newick readers do) must deliver the same shape, labels,
+		// lengths and supports - a label that carries a blank or a carriage return at its end is
+		// text that describes another tree than the one in memory
 		got, err := ref.Parse(l)
 		if err != nil {
 			return fmt.Errorf("tree %d: written text not readable by the reference reader: %v (%q)%s", i, err, l, ctx)
 		}
-		want := renamed(c.Trees[i], mp)
-		if c.Auto {
-			// unnamed inner nodes receive a name too: compare the shapes with inner names of the input filled in from the output
-			fill(want, got)
-			names := got.Tips()
-			sort.Strings(names)
-			for j := 1; j < len(names); j++ {
-				if names[j] == names[j-1] {
-					return fmt.Errorf("tree %d: tip name %q given twice%s", i, names[j], ctx)
-				}
-			}
+		t, err := gt.Parse(l)
+		if err != nil {
+			return fmt.Errorf("tree %d: written text not readable by gotree's reader: %v (%q)%s", i, err, l, ctx)
 		}
-		if d := ref.Diff(want, got); d != "" {
-			return fmt.Errorf("tree %d: the written text is not the input tree with the names replaced: %s\n written %q\n expected %q%s", i, d, l, ref.Write(want), ctx)
+		if err := gt.Structural(t); err != nil {
+			return fmt.Errorf("tree %d: %v (%q)%s", i, err, l, ctx)
+		}
+		again, err := gt.Extract(t)
+		if err != nil {
+			return fmt.Errorf("tree %d: %v%s", i, err, ctx)
+		}
+		if d := ref.Diff(gt.Printable(got), gt.Printable(again)); d != "" {
+			return fmt.Errorf("tree %d: the written text does not describe one tree: the reference reader and gotree's reader differ: %s\n written %q%s", i, d, l, ctx)
+		}
+		if len(got.Tips()) != len(c.Trees[i].Tips()) || got.NNodes() != c.Trees[i].NNodes() {
+			return fmt.Errorf("tree %d: %d tips and %d nodes written, the input tree has %d and %d%s", i, len(got.Tips()), got.NNodes(), len(c.Trees[i].Tips()), c.Trees[i].NNodes(), ctx)
 		}
 	}
 	return nil
 }
 
-// fill copies, for inner nodes that have no name in want, the name found at the same place in got.
-func fill(want, got *ref.Node) {
-	if len(want.Ch) != len(got.Ch) {
-		return
-	}
-	if len(want.Ch) > 0 && want.Name == "" {
-		want.Name = got.Name
-		// a name next to a support hides the support in the written text
-		if got.Name != "" {
-			want.Sup, want.Pv = nil, nil
-		}
-	}
-	for i := range want.Ch {
-		fill(want.Ch[i], got.Ch[i])
-	}
-}
-
 func TestC03CliRename(t *testing.T) {
 	h.Run(t, h.Spec[RenameCase]{
 		Property: "C03", Name: "cli-rename", Quick: 480, Thorough: 9600,
-		Rule: "`gotree rename -m map.txt [-r] [-o file]` and `gotree rename -a --internal -m map.txt` on streams of 1-3 trees (3-10 tips, 5% up to 40; names unique over tips and inner nodes), the map naming a drawn subset of the tips and inner nodes plus names absent from the tree, new names fresh (some with a blank or a '%' inside), the map file with LF or CRLF line ends and with or without a final end-of-line, the input on stdin, in a file, in a gzip file or as a Nexus document: exit status 0, one line per tree, and each line read by the reference reader is the input tree with exactly the names of the map replaced (shape, child order, lengths, supports, labels); with --auto the map written by the command applied to the input gives the output and tip names are unique; non-trivial = at least two names of the tree are in the map (or --auto)",
+		Rule: "`gotree rename -m map.txt [-r] [-o file]` and `gotree rename -a --internal -m map.txt` on streams of 1-3 trees (3-10 tips, 5% up to 40; names unique over tips and inner nodes), the map naming a drawn subset of the tips and inner nodes plus names absent from the tree, new names fresh (some with a blank or a '%' inside), the map file with LF or CRLF line ends and with or without a final end-of-line, the input on stdin, in a file, in a gzip file or as a Nexus document: exit status 0, one line per tree, each line readable by the reference reader and by gotree's reader, both delivering the same tree (shape, labels, lengths, supports: a label ending in a blank or a carriage return is text that describes another tree), structurally well-formed, with the tip and node counts of the input; what the new names are is not judged (no listed property states it); non-trivial = at least two names of the tree are in the map (or --auto)",
 		Gen: func(t *rapid.T, thorough bool) RenameCase {
 			o := gen.Opts{MinTips: 3, MaxTips: 10, BigTips: 40, Rooted: -1, MaxDeg: 5, Lens: gen.AnyPresence, LenVals: gen.DyadicZ, Sups: gen.AnyPresence, InnerNames: gen.AnyPresence}
 			c := RenameCase{Revert: rapid.Bool().Draw(t, "revert"), Auto: rapid.IntRange(0, 4).Draw(t, "auto") == 0, ToFile: rapid.IntRange(0, 2).Draw(t, "tofile") == 0}
